@@ -3,6 +3,7 @@ SPECIFICATION Spec
 CONSTANTS
   Coords = {0, 1, 2, 3}
   K = 2
+  Ks = {}
   Callers = {1}
   Heights = {1}
   NoCaller = 0
